@@ -366,12 +366,13 @@ def run_suite(muts):
 def main():
     args = sys.argv[1:]
     suite = '--suite' in args
+    neighbours = '--noneighbours' not in args
     ops = {'DEL', 'NEG', 'CMP', 'UNLOCK', 'BOOL', 'EXC', 'UNCALL', 'CONST', 'SWAP'}
     out = '/tmp/mutants'
     props = []
     it = iter(args)
     for a in it:
-        if a == '--suite':
+        if a in ('--suite', '--noneighbours'):
             continue
         if a == '--ops':
             ops = set(next(it).split(','))
@@ -393,7 +394,8 @@ def main():
         c1 = sum(m['rc'] == 1 for m in res)
         c2 = sum(m['rc'] == 2 for m in res)
         final = [m for m in surv if not suite or m.get('suite') == 'pass']
-        run_neighbours(final)
+        if neighbours:
+            run_neighbours(final)
         print(f'{prop}: {n} mutants, caught {c1}, analysis-error {c2}, survived check {len(surv)}' +
               (f', survived check and suite {len(final)}' if suite else ''))
         for m in res:
